@@ -85,6 +85,16 @@ Definition manual_fires (reg force ignore te ee training : bool) : bool :=
 Definition hook_step (kernel : list (list (T N)) -> list (list (T N))) (fire : bool)
            (data : list (list (T N))) : list (list (T N)) :=
   if fire then kernel data else data.
+
+(* the write-back  rsetattr(module, attr, value)  ends in setattr(owner, name, <plain Tensor>).  When the owner is
+   an nn.Module and `name` is one of its registered parameters (a BARE nn.Parameter attribute, e.g. nn.Linear.weight),
+   torch.nn.Module.__setattr__ raises TypeError("cannot assign ... as parameter ..."): the kernel's result is dropped,
+   the target keeps its value and the exception propagates out of the hooked module's call.  (Property-backed
+   parameters, as inferno's own components expose them, take the assignment.)
+   hand-transcribed: inferno/neural/hooks.py:71-81, 142-150 + torch.nn.Module.__setattr__ *)
+Definition hook_step_target (bare : bool) (kernel : list (list (T N)) -> list (list (T N))) (fire : bool)
+           (data : list (list (T N))) : list (list (T N)) * option err :=
+  if fire then (if bare then (data, Some EType) else (kernel data, None)) else (data, None).
 End Norm.
 
 (* data types of the target attribute: 0 bool, 1 int16, 2 int32, 3 int64, 4 float32, 5 float64 (the default
